@@ -163,7 +163,7 @@ def main():
                     'date_tags_iff (each of the five possible tags iff its condition on the counted calendar instant; nothing else), '
                     'template_placeholder_exempt, no_date_field, check_dates_shape, sorted_set_spec, NoCrash (check_dates), parse_canon_iff, instant_counts, ordinal_counts, '
                     'parse_date_regex, parseDate_is_regex, boilerplate_regex, regex_groups (the dumped sre_parse trees mean Written / HasBoilerplate), '
-                    'canonical_unique, normalises_unique, strip_stripped, regex_pin, epoch_pin, table_pin, timezones_ref_pin (every offset the hand-maintained '
+                    'canonical_unique, normalises_unique, strip_stripped, regex_pin, epoch_pin, whitespace_pin, table_pin, timezones_ref_pin (every offset the hand-maintained '
                     'reference lists for an abbreviation is still in the tool\'s table: data/timezones may add abbreviations/offsets and be re-ordered, '
                     'not drop an offset), timezones_ref_wellformed, unique_offset_sound, fix_abbr_by_reference, ref_ambiguous_rejected. Finding (fixed in /repo by 303433e): '
                     'hints accepted by strptime %z but not of the form +HHMM tripped the length assertion or gave a non-ASCII result. '
